@@ -9,7 +9,8 @@ performs the virtual call on the caller's `FnMut` callback) and the call graph a
   R3  the callback's argument is the serialisation of the key *after* its increment, and the
       serialiser reads every field of the key
   R4  every fallible step before the callback has its failure edge cut off from the callback;
-      the only fallible step after it cannot fail (capacity argument)
+      the only fallible step after it cannot fail (capacity argument, else variant analysis), and no panic-capable
+      site in the code that runs after the accepted callback is left undischarged (panic-freedom engine)
   R5  the in-memory key's closure writes the new key and reports success
 """
 from . import core, flow
@@ -243,6 +244,27 @@ def run_config(chk, ctx, name):
         chk.ob("R4.no-failure-after-callback", "%s->%s%s" % (core.strip_generics(core_path), name_, tag), ok,
                "fallible step %s runs after the callback accepted the new key; a failure there loses the signature of a consumed leaf: %s" % (name_, why),
                where=f.loc(b))
+
+    # R4b: nothing after the accepted callback can panic either - every panic-capable site in the core's own tail and in the
+    # functions called after the callback is discharged by the panic-freedom engine (entry points: the signing entries, so the
+    # analysis context is the real one; reported sites: only the post-callback code)
+    from . import pf
+    after_blocks = flow.reach_from(f, cb_bb) - {cb_bb}
+    post_callees = set()
+    for b in after_blocks:
+        t = f.blocks[b]["term"]
+        if t["k"] == "call" and not f.blocks[b]["cleanup"]:
+            for tp in F.call_targets(f, t):
+                post_callees.add(tp)
+    post_tree = set(F.reachable(sorted(post_callees))) if post_callees else set()
+    chk.count("functions_after_callback", len(post_tree))
+    sites, an_ = pf.run(chk, F, A, A.entries_sign(), "after-callback:" + name, allow_recursion=("lms::helper::get_tree_element",), tag=tag, only_fns=post_tree,
+                        only_sites=lambda s: True)
+    # the core's own tail (overflow checks etc. after the callback block)
+    tail = pf.sites_in_blocks(F, an_, f, after_blocks)
+    for s in tail:
+        chk.ob("R4.no-panic-after-callback", "%s%s" % (s.key, tag), s.status is not None,
+               "panic-capable site after the accepted callback in %s: %s (%s): a consumed leaf would be lost without a signature" % (f.path, s.desc, s.detail), where=s.where())
 
     in_memory_key_rules(chk, F, A, tag, "R5")
 
